@@ -176,6 +176,12 @@ func (b *B) mk(n *Node) *Node {
 	b.nextID++
 	if n.W > 0 {
 		b.analyse(n)
+		// a term whose interval is a single value is that constant
+		if n.Op != OpConst && n.Op != OpVar && n.ULo == n.UHi {
+			c := b.Const(n.W, n.ULo)
+			b.tab[k] = c
+			return c
+		}
 	}
 	b.tab[k] = n
 	return n
